@@ -193,13 +193,20 @@ def check_property(pid, tier, seed):
         if pid == "C04":
             return oid.endswith(".safety") or oid.endswith(".panic_free") or oid.startswith("C04.")
         return oid.startswith(pid + ".")
+    def mine_u(u, oid):
+        # a body-safety failure (loop invariant, overflow, unreachable!, ...) of a function that serves
+        # several properties counts for each of them: it voids that function's contract as a whole
+        props_of_unit = u.get("meta", {}).get("prop") if isinstance(u.get("meta"), dict) else None
+        if oid.endswith(".safety") and isinstance(props_of_unit, list) and pid in props_of_unit:
+            return True
+        return mine(oid)
     for u in units:
         u["obligations"] = [o for o in u["obligations"] if mine(o["id"])]
         if u["status"] == "fail":
             for f in u["failed"]:
                 f.setdefault("oid", f["msg"].split(":")[0].strip())
-            other = [f for f in u["failed"] if not mine(f["oid"])]
-            u["failed"] = [f for f in u["failed"] if mine(f["oid"])]
+            other = [f for f in u["failed"] if not mine_u(u, f["oid"])]
+            u["failed"] = [f for f in u["failed"] if mine_u(u, f["oid"])]
             if other:
                 u["other_property_failures"] = [f["oid"] for f in other]
             if not u["failed"]:
